@@ -436,26 +436,30 @@ class Locale:
         no_word_spacing = eval(self.info.get("no_word_spacing", "False"))
         if settings.NORMALIZE:
             if self._normalized_simplifications is None:
-                self._normalized_simplifications = []
+                # built aside and published when complete: another thread must not
+                # find a partial list
+                normalized_simplifications = []
                 simplifications = self._generate_simplifications(normalize=True)
                 for simplification in simplifications:
                     pattern, replacement = list(simplification.items())[0]
                     if not no_word_spacing:
                         pattern = r"(?<=\A|\W|_)%s(?=\Z|\W|_)" % pattern
                     pattern = re.compile(pattern, flags=re.I | re.U)
-                    self._normalized_simplifications.append({pattern: replacement})
+                    normalized_simplifications.append({pattern: replacement})
+                self._normalized_simplifications = normalized_simplifications
             return self._normalized_simplifications
 
         else:
             if self._simplifications is None:
-                self._simplifications = []
+                plain_simplifications = []
                 simplifications = self._generate_simplifications(normalize=False)
                 for simplification in simplifications:
                     pattern, replacement = list(simplification.items())[0]
                     if not no_word_spacing:
                         pattern = r"(?<=\A|\W|_)%s(?=\Z|\W|_)" % pattern
                     pattern = re.compile(pattern, flags=re.I | re.U)
-                    self._simplifications.append({pattern: replacement})
+                    plain_simplifications.append({pattern: replacement})
+                self._simplifications = plain_simplifications
             return self._simplifications
 
     def _generate_simplifications(self, normalize=False):
